@@ -319,20 +319,21 @@ func init() {
 		var plans []plan
 		if c.Thorough() {
 			plans = []plan{
-				{f.List, []string{"D1", "D2", "D3", "D4"}, windowsThorough(), lbAll},
+				{f.List, []string{"D1", "D2", "D3", "D4", "D5"}, windowsThorough(), lbAll},
 				{f.List, []string{"D1", "D2"}, windowsAll(), cores},
 				{k.List, []string{"D1", "D2", "D3", "D4"}, windowsAll(), lb},
 			}
 		} else {
 			plans = []plan{
 				{f.List, []string{"D1", "D2", "D3", "D4"}, windowsAll(), lb},
+				{f.List, []string{"D5"}, windowsQuick(), lb},
 				{f.List, []string{"D2"}, windowsQuick(), lbAll[1:]},
 				{f.List, []string{"D1"}, windowsQuick(), cores},
 				{k.List, []string{"D1", "D2"}, windowsQuick(), lb},
 			}
 		}
 		c.Rep.Bounds["gomaxprocs"] = "4 everywhere; 1, 3, 16 over the full alphabet at depth 1"
-		c.Rep.Bounds["datasets"] = "D1 regular, D2 irregular/gap/stale/late, D3 NaN/Inf/negative/resets/name-only, D4 empty"
+		c.Rep.Bounds["datasets"] = "D1 regular, D2 irregular/gap/stale/late, D3 NaN/Inf/negative/resets/name-only, D4 empty, D5 label names sorting before __name__ / non-ASCII values"
 		for _, p := range plans {
 			for _, q := range p.qs {
 				for _, d := range p.ds {
